@@ -207,8 +207,8 @@ inductive Instr where
   | addReturn                                                  -- visit_Return's bookkeeping
   | addImport (name : String)                                  -- top._imports.append(name)
   | addStar (loc start : Pos) (module : String)                -- top._star_imports.append((loc, find_id_loc('*', start), module, self.flow))
-  | scopeBody (kind : ScopeKind) (self : Binding) (register : Bool) (args : List Binding) (body : List Ast)
-      -- cur = self.flow; scope = FuncScope/ClassScope(cur.scope, node, top) [its flow, its arguments];
+  | scopeBody (cls : Bool) (self : Binding) (register : Bool) (args : List Binding) (body : List Ast)
+      -- cur = self.flow; scope = ClassScope (cls) / FuncScope (cur.scope, node, top) [its flow, its arguments];
       -- register: cur.add_name(scope); self.visit_in_flow(body, scope.flow); self.flow = cur
   deriving Repr, Inhabited
 
@@ -216,16 +216,17 @@ abbrev Prog := List Instr
 abbrev Rec := Ast → St → M St
 abbrev Env := List (Nat × Nat)
 
-def Env.get : Env → Nat → Nat
-  | [], _ => 0
-  | (k, v) :: r, x => if k = x then v else Env.get r x
+/-- a register; one that was never assigned reads as `dflt` = `self.flow` (no visit method reads such a register) -/
+def Env.get : Env → Nat → Nat → Nat
+  | [], dflt, _ => dflt
+  | (k, v) :: r, dflt, x => if k = x then v else Env.get r dflt x
 
 def Env.set (e : Env) (k v : Nat) : Env := (k, v) :: e
 
 def FlowRef.resolve (r : FlowRef) (env : Env) (st : St) : Nat :=
   match r with
   | .cur => st.cur
-  | .reg x => env.get x
+  | .reg x => env.get st.cur x
 
 /-- `for n in nodes: self.visit(n)` -/
 def visitAll (rec : Rec) : List Ast → St → M St
@@ -246,17 +247,17 @@ def execInstr (lines : List Text.Str) (rec : Rec) (i : Instr) (env : Env) (st : 
     let st ← rec c st
     pure (env, st)
   | .visitIn cs f dst => do
-    let (st, res) ← visitInFlow rec cs (env.get f) st
+    let (st, res) ← visitInFlow rec cs (env.get st.cur f) st
     pure (match dst with | some d => env.set d res | none => env, st)
   | .saveCur d => pure (env.set d st.cur, st)
-  | .setCur s => pure (env, { st with cur := env.get s })
+  | .setCur s => pure (env, { st with cur := env.get st.cur s })
   | .makeFlow d ps =>
-    let r := st.makeFlow (ps.map env.get)
+    let r := st.makeFlow (ps.map (env.get st.cur))
     pure (env.set d r.2, r.1)
   | .setFinal => pure (env, st.setFinal)
-  | .loop h t => pure (env, st.addLoop (env.get h) (env.get t))
+  | .loop h t => pure (env, st.addLoop (env.get st.cur h) (env.get st.cur t))
   | .addName f b => pure (env, st.addName (f.resolve env st) (b.resolve lines))
-  | .compName f b => pure (env, st.compName (env.get f) b)
+  | .compName f b => pure (env, st.compName (env.get st.cur f) b)
   | .flowAttr p id f => pure (env, { st with flowAttrs := (p, id, f.resolve env st) :: st.flowAttrs })
   | .attrAssign p => pure (env, { st with attrAssigns := (st.curScope, p) :: st.attrAssigns })
   | .globalDecl names => pure (env, st.globalDecl names)
@@ -265,9 +266,9 @@ def execInstr (lines : List Text.Str) (rec : Rec) (i : Instr) (env : Env) (st : 
   | .addStar loc start m =>
     let decl := Text.declaredAt Text.Generated.importFromSite lines ['*'] start
     pure (env, { st with stars := { loc := loc, decl := decl, module := m, flow := st.cur } :: st.stars })
-  | .scopeBody kind self register args body => do
+  | .scopeBody cls self register args body => do
     let cur := st.cur
-    let r := st.newScope kind
+    let r := st.newScope (if cls then .cls else .func)
     let st := args.foldl (fun st a => st.addName r.2.2 a) r.1
     let st := if register then st.addName cur (self.resolve lines) else st
     let (st, _) ← visitInFlow rec body r.2.2 st
@@ -652,7 +653,7 @@ def compileFunctionDef (n : Ast) : M Prog := do
   let location ← bodyLoc body
   let args ← allArgBindings location v
   pure ((decs ++ v.defaults ++ v.kwDefaults ++ a1 ++ a2 ++ a3 ++ a4 ++ returns.toList).map Instr.visit ++
-        [.scopeBody .func { name := name, loc := location, info := { kind := .func, declaredAt := p },
+        [.scopeBody false { name := name, loc := location, info := { kind := .func, declaredAt := p },
                             site := some Text.Generated.funcSite } true args body])
 
 def compileLambda (n : Ast) : M Prog := do
@@ -664,7 +665,7 @@ def compileLambda (n : Ast) : M Prog := do
   let p ← np n
   let args ← allArgBindings location v
   pure ((v.defaults ++ v.kwDefaults ++ a1 ++ a2).map Instr.visit ++
-        [.scopeBody .func { name := "lambda", loc := location, info := { kind := .func, declaredAt := p } } false args [body]])
+        [.scopeBody false { name := "lambda", loc := location, info := { kind := .func, declaredAt := p } } false args [body]])
 
 /-- `np(node.body[0])` -/
 def firstLoc (body : List Ast) : M Pos :=
@@ -681,7 +682,7 @@ def compileClassDef (n : Ast) : M Prog := do
   let body ← getNodeList n "body"
   let location ← firstLoc body
   pure [.saveCur 0, .visitIn decs 0 none, .visitIn bases 0 none, .visitIn keywords 0 none,
-        .scopeBody .cls { name := name, loc := location, info := { kind := .cls, declaredAt := p },
+        .scopeBody true { name := name, loc := location, info := { kind := .cls, declaredAt := p },
                           site := some Text.Generated.classSite } true [] body,
         .setCur 0]
 
@@ -831,18 +832,25 @@ def visit (lines : List Text.Str) : Nat → Rec
   | 0 => fun _ _ => .error .fuel
   | fuel + 1 => step lines (visit lines fuel)
 
+/-- `ImportedName(name, loc, declared_at, mname, name, True)` -/
+def starBinding (s : Star) (nm : String) : Binding :=
+  { name := nm, loc := s.loc,
+    info := { kind := .imported, declaredAt := s.decl, module := s.module, mname := some nm, star := true } }
+
+/-- `for name in iterkeys(module._attrs): if not name.startswith('_'): flow.add_name(...)` -/
+def starNames (s : Star) (names : List String) (st : St) : St :=
+  names.foldl (fun st nm => if (str nm).head? == some '_' then st else st.addName s.flow (starBinding s nm)) st
+
+/-- one entry of `_star_imports`; a module that cannot be imported (ImportError) is skipped -/
+def resolveStar (mods : List (String × List String)) (st : St) (s : Star) : St :=
+  match mods.lookup s.module with
+  | none => st
+  | some names => starNames s names st
+
 /-- `SourceScope.resolve_star_imports(project)`; `mods` = for every module name that can be imported,
     the keys of `module._attrs` in iteration order -/
 def resolveStars (mods : List (String × List String)) (st : St) : St :=
-  let st' := st.stars.reverse.foldl (fun st s =>
-    match mods.lookup s.module with
-    | none => st
-    | some names =>
-      names.foldl (fun st nm =>
-        if (str nm).head? == some '_' then st
-        else st.addName s.flow { name := nm, loc := s.loc,
-                                 info := { kind := .imported, declaredAt := s.decl, module := s.module, mname := some nm, star := true } }) st) st
-  { st' with stars := [] }
+  { st.stars.reverse.foldl (resolveStar mods) st with stars := [] }
 
 /-- `extract_scope(source, project)`: `SourceScope(source)`, `extract(tree, scope.flow)` (= `generic_visit(tree)`),
     `resolve_star_imports` -/
